@@ -7,6 +7,12 @@ BASELINE_OFF = "for m in $(cat /w/out/gomods.txt); do MF=$(cd /repo/$m && . /w/o
 
 # id -> (level text, level_note, technique)
 CLAIMED = {
+ "C02": ("pairing analysis of the active-stream counter over all paths: who may increment/decrement, exactly one increment of the returned slot per placing path and none otherwise, no exit of Pick after a placement except the hand-over of the slot with its completion closure, the closure's unconditional first effect is one decrement of that slot, the refresh swap keeps the slot object and counters, pickers are built from READY entries only, and the least-busy scan replaces/keeps its minimum consistently with the count comparison",
+         "assumes gRPC calls Done at most once per successful pick; numeric minimality under concurrent increments on different pickers and 'returns to zero' as arithmetic are consequences of the pairing, not separately computed",
+         "static analysis: who-may-call/write + avoid-set reaching conditions + provenance on go/ssa"),
+ "C04": ("structural analysis of the aggregate-state bookkeeping: writers of the state map and counters, every state-map effect paired with exactly one evaluator call with the matching arguments on all paths, evaluator decision list and counter/state agreement, error picker ⇔ TRANSIENT_FAILURE, the publish condition as an exact 4-atom truth-table equivalence, published pair is the freshly computed one, non-READY reports of replacements have no effect",
+         "assumes serialised UpdateSubConnState calls; that the counters never wrap follows from the pairing by induction, which is stated but not machine-checked",
+         "static analysis: reaching-condition truth tables (exact boolean functions) + must-pass-through + who-may-write on go/ssa"),
  "C06": ("static lock-discipline + loop-progress analysis over all paths of all functions reachable from the pool API: decides absence of self-deadlock (re-acquisition of a non-reentrant lock on any call path), lock leaks on any exit, blocking while a lock is held, lock-order cycles, non-progress loops and unbounded recursion; it does not measure time",
          "assumes gRPC's serialised-callback / no-synchronous-re-entry contract; type-based lock identity; wall-clock bounds and liveness of gRPC's own state delivery are not decided",
          "static analysis: interprocedural lock-state dataflow (may/must entry contexts) + lock-order graph + loop/recursion classification on go/ssa"),
